@@ -473,7 +473,9 @@ fn emit_fn(cx: &mut Ctx, specs: &mut Specs, em: &mut Emitter, ex: &Extract, file
     if !cx.baseline_fns.is_empty() {
         // (in a default method of a trait only free functions of the file are candidates)
         let head = if fd.tr.is_some() { None } else { fd.im.as_ref().map(|im| type_head(&im.self_ty)) };
-        let helpers = rewrite::new_helpers(file, head.as_deref(), &cx.baseline_fns);
+        // (the list is per file: `<file> <name>`)
+        let here: BTreeSet<String> = cx.baseline_fns.iter().filter_map(|l| l.strip_prefix(&format!("{} ", ex.file)).map(|n| n.to_string())).collect();
+        let helpers = rewrite::new_helpers(file, head.as_deref(), &here);
         rewrite::inline_new_helpers(&mut f.block, &helpers, cx);
     }
     let mut tr_generics: Option<syn::Generics> = None;
